@@ -9,6 +9,11 @@
   Part 3: elementary functions: argument order of ATAN2, sign of MOD, exact FACT / FACTDOUBLE / ABS /
           SIGN, and the domain table (`domain_total`).
 
+  Guarded (`…_partial`) theorems: EVEN, CEILING and FLOOR refine the reference only when the float
+  quotient does not underflow to zero (finding D1605, modelled; kernel-checked counter-examples next
+  to them).  CEILING / FLOOR are modelled over ideal reals: finding D37 (binary float quotient /
+  product) lives in IEEE arithmetic and is reported by witness in the correspondence.
+
   The correspondence check (harness/props/c16.py) ties `Model.C16` to the running code.
 -/
 import XlVerif.Model.C16
@@ -971,6 +976,106 @@ theorem iseven_spec (n : Num) : ISEVEN n = ((truncZ n.toRat) % 2 == 0) := by
   by_cases h1 : z = 1
   · subst h1; decide
   · simp [h1, h2]
+
+theorem lift_val {o : Out Rat} (h : ∃ r, o = .val r) : ∃ v, lift o = .val v := by
+  obtain ⟨r, rfl⟩ := h; exact ⟨_, rfl⟩
+
+/-- … and the guards are not over-eager: inside the domain every function whose result cannot
+    overflow returns a value (for EXP, COSH, DEGREES and POWER see `domain_total`: a value, or `#NUM!`
+    when the result leaves the double range). -/
+theorem inside_is_value (P : Prims) (hP : Contracts P) (c : Call)
+    (h : outside c.sig.1 c.sig.2 = false)
+    (hc : match c with | .EXP _ | .COSH _ | .DEGREES _ | .POWER _ _ => False | _ => True) :
+    ∃ v, run P c = .val v := by
+  cases c with
+  | ABS n =>
+    simp only [Call.sig, outside] at h
+    obtain ⟨m, hm, _⟩ := ABS_exact n; exact ⟨m, hm⟩
+  | SIGN n =>
+    simp only [Call.sig, outside] at h
+    exact ⟨_, rfl⟩
+  | SQRT n =>
+    simp only [Call.sig, outside] at h
+    have : ¬ n.toRat < 0 := by simpa using h
+    simp only [run, SQRT, this, if_false]; exact lift_val (hP.sqrt _ (not_lt.mp this))
+  | LN n =>
+    simp only [Call.sig, outside] at h
+    have : ¬ n.toRat ≤ 0 := by simpa using h
+    simp only [run, LN, this, if_false]; exact lift_val (hP.ln _ (not_le.mp this))
+  | LOG10 n =>
+    simp only [Call.sig, outside] at h
+    have : ¬ n.toRat ≤ 0 := by simpa using h
+    simp only [run, LOG10, this, if_false]; exact lift_val (hP.log10 _ (not_le.mp this))
+  | LOG n b =>
+    simp only [Call.sig, outside] at h
+    simp only [Bool.or_eq_false_iff, decide_eq_false_iff_not, beq_eq_false_iff_ne] at h
+    obtain ⟨⟨h1, h2⟩, h3⟩ := h
+    have g1 : ¬ (n.toRat ≤ 0 ∨ b.toRat ≤ 0) := by rintro (x | x); exact h1 x; exact h2 x
+    have g2 : (b.toRat == 1) = false := by simpa using h3
+    simp only [run, LOG, g1, if_false, g2]
+    exact lift_val (hP.logb _ _ (not_le.mp h1) (not_le.mp h2) h3)
+  | MOD n d =>
+    simp only [Call.sig, outside] at h
+    have : d.toRat ≠ 0 := by simpa using h
+    obtain ⟨r, hr, _⟩ := mod_sign n d this; exact ⟨r, hr⟩
+  | FACT n =>
+    simp only [Call.sig, outside] at h
+    have : ¬ n.toRat < 0 := by simpa using h
+    simp only [run, FACT, this, if_false]; exact ⟨_, rfl⟩
+  | FACTDOUBLE n =>
+    simp only [Call.sig, outside] at h
+    have : ¬ n.toRat < 0 := by simpa using h
+    simp only [run, FACTDOUBLE, this, if_false]; exact ⟨_, rfl⟩
+  | SIN n =>
+    simp only [Call.sig, outside] at h
+    exact lift_val (hP.sin _)
+  | COS n =>
+    simp only [Call.sig, outside] at h
+    exact lift_val (hP.cos _)
+  | TAN n =>
+    simp only [Call.sig, outside] at h
+    exact lift_val (hP.tan _)
+  | ASIN n =>
+    simp only [Call.sig, outside] at h
+    simp only [Bool.or_eq_false_iff, decide_eq_false_iff_not] at h
+    have g : ¬ (n.toRat < -1 ∨ n.toRat > 1) := by rintro (x | x); exact h.1 x; exact h.2 x
+    simp only [run, ASIN, g, if_false]
+    exact lift_val (hP.asin _ (not_lt.mp h.1) (not_lt.mp h.2))
+  | ACOS n =>
+    simp only [Call.sig, outside] at h
+    simp only [Bool.or_eq_false_iff, decide_eq_false_iff_not] at h
+    have g : ¬ (n.toRat < -1 ∨ n.toRat > 1) := by rintro (x | x); exact h.1 x; exact h.2 x
+    simp only [run, ACOS, g, if_false]
+    exact lift_val (hP.acos _ (not_lt.mp h.1) (not_lt.mp h.2))
+  | ATAN n =>
+    simp only [Call.sig, outside] at h
+    exact lift_val (hP.atan _)
+  | ATAN2 x y =>
+    simp only [Call.sig, outside] at h
+    exact lift_val (hP.atan2 _ _)
+  | ASINH n =>
+    simp only [Call.sig, outside] at h
+    exact lift_val (hP.asinh _)
+  | ACOSH n =>
+    simp only [Call.sig, outside] at h
+    have : ¬ n.toRat < 1 := by simpa using h
+    simp only [run, ACOSH, this, if_false]; exact lift_val (hP.acosh _ (not_lt.mp this))
+  | RADIANS n =>
+    simp only [Call.sig, outside] at h
+    exact lift_val (hP.radians _)
+  | PI =>
+    simp only [Call.sig, outside] at h
+    exact ⟨_, rfl⟩
+  | EXP n => exact hc.elim
+  | COSH n => exact hc.elim
+  | DEGREES n => exact hc.elim
+  | POWER n p => exact hc.elim
+
+example : outside (Call.ACOS (.int 1)).sig.1 (Call.ACOS (.int 1)).sig.2 = false := by decide +kernel
+
+example : outside (Call.LN (.int 0)).sig.1 (Call.LN (.int 0)).sig.2 = true := by decide +kernel
+example : outside (Call.POWER (.int (-8)) (.flt (1/3))).sig.1 (Call.POWER (.int (-8)) (.flt (1/3))).sig.2 = true := by
+  decide +kernel
 
 /-- D18 / D36 (fixed): the boundary arguments are Excel errors on the model -/
 example (P : Prims) : POWER P (.int 0) (.int (-1)) = .xlerr .div0 := by simp [POWER, Num.toRat]
